@@ -12,7 +12,6 @@ package cache
 // lowBound(sec, t): t is no greater than the TTL of any non-OPT record of sec.
 //@ pred lowBound(sec []dns.RR, t int) = forall j int :: 0 <= j && j < len(sec) && !isOPT(sec[j]) ==> t <= hdrOf(sec[j]).Ttl
 //@ pred lowBoundUpTo(sec []dns.RR, n int, t int) = forall j int :: 0 <= j && j <= n && j < len(sec) && !isOPT(sec[j]) ==> t <= hdrOf(sec[j]).Ttl
-//@ pred validRRs(sec []dns.RR) = forall j int :: 0 <= j && j < len(sec) ==> ref(sec[j]) != 0
 
 //@ func getTTLIfLower
 //@   property C04
